@@ -141,6 +141,11 @@ class Emitter:
     def note_proto(self, cname, ret, params, src, variadic=False):
         old = self.protos.get(cname)
         new = (ret, tuple(params), variadic)
+
+        def canon(p):  # size_t and unsigned long are the same C type on the LP64 target: not a collision
+            return (re.sub(r"\bsize_t\b", "unsigned long", p[0]), tuple(re.sub(r"\bsize_t\b", "unsigned long", x) for x in p[1]), p[2])
+        if old and canon(old[:3]) == canon(new):
+            return
         if old and (old[0], old[1], old[2]) != new:
             raise Unsupported("C name collision for %s: %s vs %s (add a rename in the spec config)" %
                               (cname, old[:3], new))
@@ -794,6 +799,10 @@ class Emitter:
             then = n["inner"][-1]
             if self.is_log_stmt(then):
                 return True
+            # the "if (enabled) { ...; _xbt_log_event_log(..); }" of the XBT_LOG family comes out of a macro expansion;
+            # an `if` written in the source whose block merely ends with a log line is real code and must be kept
+            if "expansionLoc" not in n.get("range", {}).get("begin", {}):
+                return False
             return contains(then, lambda x: x.get("kind") == "CallExpr" and
                             skip(x["inner"][0]).get("referencedDecl", {}).get("name") in LOG_CALLS) and \
                 not contains(then, lambda x: x.get("kind") == "CallExpr" and
